@@ -5,6 +5,7 @@ chains whose only departures from `Precedence()`-canonical form are the three gr
 classes. Core Lean only.
 -/
 import OG.C12.GoodLemmas
+import OG.C12.SetLemmas
 
 namespace OG.C12
 open OG.Gen.C12
@@ -631,13 +632,37 @@ theorem yok_paren (e : Expr) (h : YOK e) (hn : noSetFirst e = true) : YOK (.pare
   unfold YOK at *
   simp [allNodes, okNode, shapeOK, nodeOK, h, hn]
 
-theorem yok_mkSet (name : Str) (op : Op) (cl : List (Expr × Option Str)) (hop : op = .inOp ∨ op = .notin) :
+theorem valCanon_of_int (v : Int) : valCanon (.num ⟨decide (v < 0), v.natAbs, 0⟩) = true := by
+  simp [valCanon]
+
+/-- the key set of an IN list is canonical: its members come from YOK literals. -/
+theorem setOfClauses_canon : (cl : List (Expr × Option Str)) → (acc : List SetVal) →
+    (∀ x ∈ cl, YOK x.1) → setCanon acc = true → setCanon (setOfClauses cl acc) = true
+  | [], acc, _, h => by simpa [setOfClauses] using h
+  | (e, a) :: rest, acc, hcl, h => by
+    have he : YOK e := hcl (e, a) (by simp)
+    have hrest : ∀ x ∈ rest, YOK x.1 := fun x hx => hcl x (by simp [hx])
+    unfold setOfClauses
+    split
+    · exact setOfClauses_canon rest _ hrest (setCanon_insert _ _ (by simp [valCanon]) h)
+    · rename_i n
+      have hn : valCanon (.num n) = true := by
+        unfold YOK at he
+        simp only [allNodes, okNode, shapeOK, Bool.true_and, nodeOK] at he
+        simpa [valCanon] using he
+      exact setOfClauses_canon rest _ hrest (setCanon_insert _ _ hn h)
+    · exact setOfClauses_canon rest _ hrest (setCanon_insert _ _ (valCanon_of_int _) h)
+    · exact setOfClauses_canon rest _ hrest h
+
+theorem yok_mkSet (name : Str) (op : Op) (cl : List (Expr × Option Str)) (hop : op = .inOp ∨ op = .notin)
+    (hcl : ∀ x ∈ cl, YOK x.1) :
     YOK (mkSet name op cl) ∧ noSetFirst (mkSet name op cl) = true ∧ condTop (mkSet name op cl) = true := by
   have hf := setops_facts op (by rcases hop with h | h <;> simp [h])
   have hin : isInOp op = true := by rcases hop with h | h <;> subst h <;> decide
+  have hset := setOfClauses_canon cl [] hcl (by simp [setCanon, sortedB])
   refine ⟨?_, by simp [mkSet, noSetFirst, firstAtom], by simp [mkSet, condTop, hf.1]⟩
   unfold YOK
-  simp [mkSet, allNodes, okNode, shapeOK, nodeOK, leftOK, rightOK, hf.2, hin, noSetFirst, firstAtom, Expr.isSet]
+  simp [mkSet, allNodes, okNode, shapeOK, nodeOK, leftOK, rightOK, hf.2, hin, noSetFirst, firstAtom, Expr.isSet, hset]
 
 theorem yok_match (op : Op) (x y : Str) (hop : op = .matchOp ∨ op = .matchphrase ∨ op = .ipinrange) :
     YOK (.binary op (.varRef x .unknown) (.str y)) ∧ condTop (.binary op (.varRef x .unknown) (.str y)) = true := by
@@ -668,7 +693,7 @@ theorem kind_cond (e : Expr) (h : condTop e = true) : KindOK .cond e :=
 theorem operand_step (f : Nat) (ih : CondInv f) :
     ∀ toks e k r, yOperand (f + 1) toks = some (e, k, r) → YOK e ∧ noSetFirst e = true ∧ KindOK k e := by
   obtain ⟨_, _, ihg, _⟩ := ih
-  obtain ⟨_, hcb, hcc, _⟩ := colInv f
+  obtain ⟨_, hcb, hcc, hcd⟩ := colInv f
   intro toks e k r h
   unfold yOperand at h
   split at h
@@ -694,17 +719,19 @@ theorem operand_step (f : Nat) (ih : CondInv f) :
   · -- x IN ( … )
     rename_i name rest
     split at h
-    · simp only [Option.some.injEq, Prod.mk.injEq] at h
+    · rename_i cl r' hc
+      simp only [Option.some.injEq, Prod.mk.injEq] at h
       obtain ⟨rfl, rfl, rfl⟩ := h
-      obtain ⟨a, b, c⟩ := yok_mkSet name .inOp _ (Or.inl rfl)
+      obtain ⟨a, b, c⟩ := yok_mkSet name .inOp cl (Or.inl rfl) (fun x hx => (hcd _ _ _ hc x hx).1)
       exact ⟨a, b, kind_cond _ c⟩
     · cases h
   · -- x NOT IN ( … )
     rename_i name rest
     split at h
-    · simp only [Option.some.injEq, Prod.mk.injEq] at h
+    · rename_i cl r' hc
+      simp only [Option.some.injEq, Prod.mk.injEq] at h
       obtain ⟨rfl, rfl, rfl⟩ := h
-      obtain ⟨a, b, c⟩ := yok_mkSet name .notin _ (Or.inr rfl)
+      obtain ⟨a, b, c⟩ := yok_mkSet name .notin cl (Or.inr rfl) (fun x hx => (hcd _ _ _ hc x hx).1)
       exact ⟨a, b, kind_cond _ c⟩
     · cases h
   · -- MATCH ( a , b ) …
